@@ -308,7 +308,7 @@ Ltac fin := cbn [uw un ucl uph ucur uerr upend ucnt uclosed ufrom useen usince u
 
 Theorem step_UInv (s : ustate) e : UInv s -> UInv (fst (step s e)).
 Proof.
-  intros Hs. pose proof Hs as (I & L & A & Bk). destruct e as [ups|n v b now|n ans now|n cl|i now|i ok|i now|i ok|i]; cbn [step].
+  intros Hs. pose proof Hs as (I & L & A & Bk). destruct e as [ups fok|n v b now|n ans now|n cl|i now|i ok|i now|i ok|i]; cbn [step].
   - (* EApply *)
     cbn [fst]. rewrite apply_updates_fst. split; [apply fold_apply1_Inv; exact I|]. split.
     { cbn [st us]. rewrite fold_apply1_ws_length, map_length. exact L. }
@@ -516,9 +516,9 @@ Lemma set_since_id (u : updater) : set_since u (usince u) = u.
 Proof. destruct u; reflexivity. Qed.
 
 Definition ev_installs (n : name) (e : event) : bool :=
-  match e with EApply ups => has_install n ups | _ => false end.
+  match e with EApply ups _ => has_install n ups | _ => false end.
 Definition ev_last (n : name) (e : event) (acc : option (src V)) : option (src V) :=
-  match e with EApply ups => last_install_in n ups acc | _ => acc end.
+  match e with EApply ups _ => last_install_in n ups acc | _ => acc end.
 Definition installed (n : name) (evs : list event) : bool := existsb (ev_installs n) evs.
 Definition quiet (i : nat) (evs : list event) : Prop := forall e, In e evs -> about i e = false.
 
@@ -538,7 +538,7 @@ Proof.
   destruct (A i u Hu) as [a b c d e0 f g h k l].
   assert (Same : nth_error (us s) i = Some (set_since u (usince u || false))).
   { rewrite orb_false_r, set_since_id. exact Hu. }
-  destruct e as [ups|n v b0 now|n ans now|n cl|j now|j ok|j now|j ok|j]; cbn [step about ev_installs ev_last] in *.
+  destruct e as [ups fok|n v b0 now|n ans now|n cl|j now|j ok|j now|j ok|j]; cbn [step about ev_installs ev_last] in *.
   - cbn [fst us st]. rewrite nth_error_map, Hu. cbn [option_map]. split; [reflexivity|].
     rewrite apply_updates_fst. destruct (@fold_apply1_watch i (un u) ups (st s) (usince u) I c b) as (_ & _ & _ & _ & F4). exact F4.
   - destruct (secret_locked (st s) n) as [s1 ok] eqn:E.
@@ -839,4 +839,44 @@ Proof.
   intros K Al. cbn [step]. unfold secret_locked. rewrite K, Al, (lookup_finish_unknown _ _ _ _ _ K). reflexivity.
 Qed.
 
+
+(* ------------------------------------------------------------------ the cache's answer changes nothing *)
+
+(* applyUpdates installs and notifies in its loop, then flushes: whatever Cache.Write answers, the store
+   (values, versions, stamps, handles, every watcher's slot), every updater and the builder log are
+   the same; only the error handed to Refresh differs *)
+Lemma apply_state_ignores_flush (s : ustate) ups f1 f2 :
+  fst (step s (EApply ups f1)) = fst (step s (EApply ups f2)).
+Proof. reflexivity. Qed.
+
+Lemma apply_result (s : ustate) ups f :
+  snd (step s (EApply ups f)) = (if f then OOk else match ups with [] => OOk | _ => OFail end).
+Proof. cbn [step snd]. destruct ups as [|u r]; cbn [apply_updates snd]; destruct f; reflexivity. Qed.
+
+Definition forget_flush (e : event) : event := match e with EApply ups _ => EApply ups true | _ => e end.
+
+Lemma step_forget_flush (s : ustate) e : fst (step s (forget_flush e)) = fst (step s e).
+Proof. destruct e; reflexivity. Qed.
+
+Lemma exec_forget_flush : forall evs (s : ustate), exec s (map forget_flush evs) = exec s evs.
+Proof.
+  unfold exec. induction evs as [|e evs IH]; intros s; [reflexivity|]. cbn [map run].
+  pose proof (step_forget_flush s e) as E.
+  destruct (step s (forget_flush e)) as [s1 o1]. destruct (step s e) as [s2 o2]. cbn [fst] in E. subst s2.
+  specialize (IH s1). destruct (run s1 (map forget_flush evs)) as [a oa]. destruct (run s1 evs) as [b ob].
+  cbn [fst] in *. exact IH.
+Qed.
+
+(* in particular: a poll that installs a version of updater i's secret while the cache fails leaves
+   the watcher's slot full, exactly like one whose flush succeeds *)
+Lemma apply_failed_flush_notifies (s : ustate) i u ups f : UInv s -> nth_error (us s) i = Some u ->
+  has_install (un u) ups = true -> flag_of (st (fst (step s (EApply ups f)))) i = true.
+Proof.
+  intros Hs Hu Hi. pose proof Hs as (I & L & A & Bk). destruct (A i u Hu) as [a b c d e0 g h k l m0].
+  cbn [step fst st]. rewrite apply_updates_fst.
+  destruct (@fold_apply1_watch i (un u) ups (st s) (usince u) I c b) as (_ & _ & _ & F3 & _).
+  unfold flag_of. rewrite F3. cbn [wflag]. rewrite Hi. apply orb_true_r.
+Qed.
+
 End Proofs.
+
